@@ -41,6 +41,6 @@ PROP = dict(
                  'copying the plain-data fields of a session-id sslSessionId_t is a legal way for an application to resume one cached session on two parallel connections'],
     targets=[dict(name='c20_concurrent', src=['props/C20/concurrent.cc', 'harness/c20_wraps.c'], variant='tsan', wraps=WRAPS,
                   env={'VERIF_DIR': '/verif', 'TSAN_OPTIONS': TSAN}, replay_timeout=400,
-                  quick=dict(cases=160, secs=100, shards=4, shrink_secs=10, grace=360),
-                  thorough=dict(cases=1200, secs=1000, shards=4, shrink_secs=60, grace=330))],
+                  quick=dict(cases=240, secs=100, shards=4, shrink_secs=10, grace=360),
+                  thorough=dict(cases=3200, secs=900, shards=4, shrink_secs=20, grace=360))],
 )
